@@ -1,11 +1,16 @@
 """C12 - libavoid hyperedges stay spanning trees over the same terminals (DESIGN 5.12).
-proof: Graph/UnionFind.v, Graph/Trees.v, Avoid/HyperTree.v (abstract junction/terminal multigraph: verified tree checker,
-contract/split/merge/Kruskal-replace preserve "tree whose degree-1 nodes are the terminals");
-tie: V - the extracted checker is_tree_with_leaves is run on the real connector/junction graph after every transaction
-(rerouting registered by junction or by terminal list, both improvement options, further shape moves), plus route-end and
-new/deleted-list oracles.  Hook H2 (op log) is not used: the C-tie of the abstract ops is left out (see META)."""
+proof: Graph/UnionFind.v, Graph/Trees.v, Avoid/HyperTree.v (connector level: verified tree checker, contract/split/merge/
+Kruskal-replace preserve "tree whose degree-1 nodes are the terminals"), Avoid/HyperSegModel.v + HyperSeg.v (segment level: the
+operations libavoid performs on its HyperedgeTree - contraction of zero-length edges in all its cases, edge subdivision, merging
+of common-edge neighbours, deletion of the emptied junction node, MTST bridging edges, the connector-level reading `smooth`);
+tie: C through hook H2 (tools/hooks/H2.patch: guarded op log in hyperedgeimprover.cpp / hyperedgetree.cpp / hyperedge.cpp /
+mtst.cpp): checks/c12lib.py replays every logged operation on the extracted model and compares (see there); V - the extracted
+checker is_tree_with_leaves is run on the real connector/junction graph after every transaction (rerouting registered by
+junction or by terminal list, both improvement options, further shape moves), plus route-end and new/deleted-list oracles.
+Without the hook in the tree under test only the V part runs and the evidence says so."""
 import os, json, copy
 from vlib import common as C
+from checks import c12lib as L
 
 PID = 'C12'
 FP_FJ = 'terminal_on_tree_path'
@@ -148,11 +153,19 @@ def parse_harness(txt):
         if not w:
             continue
         if w[0] == 'SCENE':
-            cur = {'tx': [], 'assert': None}
+            cur = {'tx': [], 'assert': None, 'h2_pending': None}
             out[w[1]] = cur
+        elif w[0] == 'H2':
+            # hook H2 records of the transaction being processed; they precede its TX record
+            if cur is not None:
+                if len(w) > 1 and w[1] == 'TXBEGIN':
+                    cur['h2_pending'] = []
+                elif cur['h2_pending'] is not None:
+                    cur['h2_pending'].append(line)
         elif w[0] == 'TX':
             tx = {'cbefore': [], 'jbefore': [], 'boxes': {}, 'pins': {}, 'juncs': {}, 'conns': {}, 'newc': [], 'delc': [], 'newj': [],
-                  'delj': [], 'complete': False, 'processed': w[2] == '1'}
+                  'delj': [], 'complete': False, 'processed': w[2] == '1', 'h2': cur['h2_pending']}
+            cur['h2_pending'] = None
             cur['tx'].append(tx)
         elif w[0] == 'ENDTX':
             tx['complete'] = True
@@ -266,8 +279,12 @@ def terminal_on_tree_path(sc, pre):
     return None
 
 
+def harness_exe(flavor='exc'):
+    return C.build_harness('c12_hyper', ['libavoid'], flavor, extra_flags=(('-DHAVE_H2',) if L.hook_present() else ()))
+
+
 def run_scenes(scenes, flavor='exc'):
-    exe = C.build_harness('c12_hyper', ['libavoid'], flavor)
+    exe = harness_exe(flavor)
     drv = C.ocaml_build('c12', 'C12.v', 'c12_driver.ml', 'c12_model.ml')
     d = os.path.join(C.BUILD, 'tmp')
     os.makedirs(d, exist_ok=True)
@@ -295,30 +312,49 @@ def run_scenes(scenes, flavor='exc'):
         todo = todo[idx + 1:]
         if len(crashed) > 20:
             break
-    cmds, plan = [], []
+    cmds, plan, h2cmds = [], [], []
     for sc in scenes:
         o = obs.get(sc.sid)
         if o is None:
             plan.append((sc, None, []))
             continue
         graphs = []
-        for t in o['tx']:
+        by_list = bool(sc.reroute and sc.reroute[0] == 'T')
+        o['h2_sections'] = []          # (transaction index, c12lib.Section)
+        for k, t in enumerate(o['tx']):
+            if t.get('h2') is not None:
+                for sec in L.plan_tx(t['h2'], by_list):
+                    o['h2_sections'].append((k, sec))
             if not t['complete']:
                 continue
             edges, jmap, dangling, resolved = build_graph(sc, t)
             graphs.append((edges, jmap, dangling, resolved))
             cmds.append(tree_cmd(edges, sc.terminals()))
+        if o.get('h2_pending'):
+            # the transaction died (assertion / crash) after these records were written
+            for sec in L.plan_tx(o['h2_pending'], by_list):
+                sec.complete = False
+                o['h2_sections'].append((len(o['tx']), sec))
+        for k, sec in o['h2_sections']:
+            h2cmds += [c for c, m in sec.cmds]
         plan.append((sc, o, graphs))
     mf = os.path.join(d, 'c12_model_%s.txt' % tag)
-    open(mf, 'w').write('\n'.join(cmds) + '\n')
+    open(mf, 'w').write('\n'.join(cmds + h2cmds) + '\n')
     rc2, mout, merr, dt2 = C.sh([drv, mf], timeout=1200)
     if rc2 != 0:
         raise RuntimeError('c12 driver failed: ' + merr[-2000:])
     answers = [l.split() for l in mout.split('\n') if l.startswith('TREE')]
-    res, ai = [], 0
+    h2answers = [l for l in mout.split('\n') if l and not l.startswith('TREE')]
+    res, ai, hi = [], 0, 0
     for sc, o, graphs in plan:
         res.append((sc, o, graphs, answers[ai:ai + len(graphs)]))
         ai += len(graphs)
+        if o is not None:
+            o['h2_problems'] = []
+            for k, sec in o['h2_sections']:
+                a = h2answers[hi:hi + len(sec.cmds)]
+                hi += len(sec.cmds)
+                o['h2_problems'].append((k, sec, L.judge_section(sec, a)))
     for f in (sf, mf):
         try:
             os.remove(f)
@@ -337,14 +373,16 @@ def judge(sc, o, graphs, answers, pre, stats):
     # scene's own intermediate tree: mtst.cpp orders tree roots by pointer value)
     onpath = terminal_on_tree_path(sc, o) or (terminal_on_tree_path(sc, pre) if sc.opt >= 1 else None)
     tl = bool(sc.reroute and sc.reroute[0] == 'T')
+    tail = [l for l in (o.get('h2_pending') or []) if l.split()[1] not in ('N', 'E', 'C')][-8:]
     if o.get('crash'):
         bad.append((dict(base, what='the harness process died inside libavoid while running this scene (signal / abort)', detail=o['crash'],
-                         transactions_completed=len([t for t in o['tx'] if t['complete']])), None))
+                         transactions_completed=len([t for t in o['tx'] if t['complete']]), last_op_log_records_before_the_crash=tail), None))
     if o['assert']:
         fpa = None
         if tl and 'conn->m_dst_connend' in o['assert'] and 'hyperedgetree.cpp' in o['assert']:
             fpa = FP_TLIST + ':assert'      # the improver meets a connector of the terminal-list rerouting whose end was never set
-        bad.append((dict(base, what='COLA_ASSERT failed inside libavoid during a hyperedge scene', assertion=o['assert']), fpa))
+        bad.append((dict(base, what='COLA_ASSERT failed inside libavoid during a hyperedge scene', assertion=o['assert'],
+                         last_op_log_records_before_the_assertion=tail), fpa))
     T = sc.terminals()
     gi = 0
     tlist_reported = False
@@ -412,6 +450,67 @@ def judge(sc, o, graphs, answers, pre, stats):
                                  tx=k, connectors_before=sorted(cb), connectors_after=sorted(ca), junctions_before=sorted(jb),
                                  junctions_after=sorted(ja), new_connectors=t['newc'], deleted_connectors=t['delc'],
                                  new_junctions=t['newj'], deleted_junctions=t['delj'], **extra), fp))
+    bad += judge_h2(sc, o, onpath, tl, base, stats)
+    return bad
+
+
+# kinds of op-log findings that are consequences of a terminal lying on the tree the rerouter built (finding F-j): the leaf-preservation
+# guard of a contraction fails, the leaf set / terminals change, a connector is cut off, the hyperedge falls apart into two trees.
+# Every other kind (operation undefined in the model, neighbours differ after an operation, final trees differ, unknown nodes, junction
+# bookkeeping, geometric preconditions, terminal-set bookkeeping of the MTST) is never classified.
+H2_FJ_KINDS = ('op_guard', 'after_inv', 'cut_off', 'terminals_changed', 'before_inv', 'before_terminals', 'multi_tree', 'terminal_interior',
+               'smooth_mtst', 'terminal_no_node')
+
+
+def judge_h2(sc, o, onpath, tl, base, stats):
+    """op-log correspondence (hook H2): problems of every replayed section, first problem of a section in full, the rest as a summary"""
+    bad = []
+    secs = o.get('h2_problems') or []
+    # classifier predicates evaluated on the logged trees themselves
+    interior = any(p.get('kind') == 'terminal_interior' for k, sec, pr in secs for p in pr)
+    for k, sec, pr in secs:
+        stats['h2_sections'] += 1
+        stats['h2_' + sec.kind] += 1
+        stats['h2_commands'] += len(sec.cmds)
+        stats['h2_ops'] += len([1 for c, m in sec.cmds if m.get('what') == 'op'])
+        for c, m in sec.cmds:
+            if m.get('what') == 'op':
+                key = 'h2_op_' + c.split()[1]
+                stats[key] = stats.get(key, 0) + 1
+        if sec.info.get('skipped'):
+            stats['h2_skipped'] += 1
+        if sec.kind == 'improve' and not tl and 'terminals_before' in sec.info:
+            # (iii) the leaves of the tree as built carry exactly the terminals the scene recorded
+            want = sorted(str(('S', 1000 + i, 1)) for i in sc.terminals())
+            if sec.info['terminals_before'] != want:
+                pr = pr + [{'kind': 'before_terminals', 'what': 'the leaves of the hyperedge tree as built do not carry exactly the recorded terminals',
+                            'leaves': sec.info['terminals_before'], 'recorded': want}]
+        if not pr:
+            stats['h2_sections_agree'] += 1
+            continue
+        on_end = sec.info.get('junction_on_connector_end') or []
+        first = pr[0]
+        fp = None
+        if first.get('kind') in H2_FJ_KINDS and all(p.get('kind') in H2_FJ_KINDS + ('smooth_after', 'conn_path') for p in pr):
+            if onpath or interior:
+                fp = FP_FJ      # the recorded classifier of the finding (geometry of the tree before improvement / MTST through a terminal)
+            elif on_end and (first.get('kind') != 'op_guard' or first.get('diverging_op', '').startswith('CONTRACT')):
+                fp = FP_FJ      # the same situation read off the logged tree: a junction sits on a connector end and is contracted with it
+            elif first.get('kind') == 'op_guard' and first.get('diverging_op', '').startswith('CONTRACT') and \
+                    first.get('surviving_node_holds_junction') is not None:
+                # the mechanism itself (Coq: contract_terminal_into_junction_refuted): removeZeroLengthEdges contracts a zero-length edge
+                # between a junction and a connector end; here the junction reached the connector end only during the nudging of the
+                # improvement (no terminal on the rerouter's tree)
+                fp = FP_FJ + ':junction_lands_on_connector_end'
+        if fp is None and tl and all(p.get('kind') in ('smooth_after', 'smooth_mtst', 'conn_path') for p in pr):
+            fp = FP_TLIST
+        stats['h2_problem_sections'] += 1
+        obj = dict(base, what='op-log correspondence (hook H2): ' + first['what'], tx=k, section=sec.kind, section_complete=sec.complete,
+                   diverging_op=first.get('diverging_op') or first.get('record'),
+                   first_problem=first, further_problems=[{'kind': p.get('kind'), 'what': p['what'][:160], 'op': p.get('diverging_op')} for p in pr[1:6]],
+                   problems_in_section=len(pr), junction_on_connector_end=on_end,
+                   model_commands=[c for c, m in sec.cmds][:40], terminal_on_tree_path=onpath or None)
+        bad.append((obj, fp))
     return bad
 
 
@@ -437,7 +536,8 @@ def evaluate(scenes, res=None):
             allsc.append(twin(sc))
     results, crashed = run_scenes(allsc)
     byid = {sc.sid: (sc, o, g, a) for sc, o, g, a in results}
-    stats = {k: 0 for k in ('transactions', 'connectors', 'route_ends', 'list_checks', 'tree_bad', 'tlist_unattached')}
+    stats = {k: 0 for k in ('transactions', 'connectors', 'route_ends', 'list_checks', 'tree_bad', 'tlist_unattached', 'h2_sections', 'h2_improve',
+                            'h2_reroute', 'h2_commands', 'h2_ops', 'h2_skipped', 'h2_sections_agree', 'h2_problem_sections')}
     fam, all_bad, samples = {}, [], []
     stats['tree_bad_by_family'] = {}
     for sc, o, g, a in results:
@@ -451,7 +551,13 @@ def evaluate(scenes, res=None):
             stats['tree_bad_by_family'][sc.family] = stats['tree_bad_by_family'].get(sc.family, 0) + 1
         all_bad += bad
         if len(samples) < 3 and o and o['tx'] and o['tx'][0]['complete']:
-            samples.append({'scene': sc.sid, 'family': sc.family, 'edges_after_tx0': g[0][0] if g else None, 'terminals': [x + 1 for x in sc.terminals()]})
+            smp = {'scene': sc.sid, 'family': sc.family, 'edges_after_tx0': g[0][0] if g else None, 'terminals': [x + 1 for x in sc.terminals()]}
+            for k, sec, pr in (o.get('h2_problems') or []):
+                if sec.kind == 'improve' and sec.info.get('ops'):
+                    smp['op_log_replay'] = {'tx': k, 'section': sec.kind, 'model_commands': [c for c, m in sec.cmds][:12],
+                                            'logged_ops': [m['record'] for c, m in sec.cmds if m.get('what') == 'op'][:6], 'findings': len(pr)}
+                    break
+            samples.append(smp)
     return all_bad, stats, fam, samples, crashed
 
 
@@ -471,9 +577,15 @@ def run(tier):
         'the junction/terminal multigraph read from Router::connRefs / ConnRef::endpointConnEnds() is the hyperedge (one hyperedge per scene)',
         'live objects = present in the router and not queued for removal (DESIGN 5.12 calibration i); junction ends are compared with position() or '
         'recommendedPosition() (ii); shape ends may stop anywhere inside or on the attached shape (iii)',
-        'the abstract operations of Avoid/HyperTreeModel.v are not tied to hyperedgeimprover.cpp by an op log (hook H2 not installed): '
-        'the theorems about them are about the model only',
     ]
+    h2 = L.hook_present()
+    if h2:
+        res.assumptions.append('hook H2 records every structural edit of the HyperedgeTree (completeness of the log is itself checked: the model\'s tree '
+                               'after replaying the log must equal the dumped AFTER tree, and the touched node is compared after every operation); '
+                               'connector labels of tree edges are compared on the dumped trees only (paths per connector), not carried through the model')
+    else:
+        res.assumptions.append('hook H2 missing: op-log correspondence skipped - the segment-level theorems of Avoid/HyperSeg.v are about the model only in this run '
+                               '(apply tools/hooks/H2.patch to the tree under test)')
     rng = C.SplitMix64(res.seed)
     n = 140 if tier == 'quick' else 1200
     scenes = load_corpus()
@@ -501,7 +613,19 @@ def run(tier):
         'exhaustive': False, 'scenes': len(scenes), 'corpus_scenes': ncorpus, 'families': fam, 'counts': stats, 'samples': samples,
         'traces_validated_against_impl': stats['transactions'],
         'known_classified': {fp: len([b for b in all_bad if b[1] == fp]) for fp in (FP_FJ, FP_TLIST)},
+        'hook_H2': 'present' if h2 else 'hook H2 missing: op-log correspondence skipped',
+        'op_log_correspondence': ({
+            'sections_replayed': stats['h2_sections'], 'improvement_sections': stats['h2_improve'], 'rerouting_sections': stats['h2_reroute'],
+            'model_commands': stats['h2_commands'], 'operations_replayed': stats['h2_ops'],
+            'operations_by_kind': {'CONTRACT': stats.get('h2_op_C', 0), 'SUBDIVIDE': stats.get('h2_op_S', 0), 'FOLD': stats.get('h2_op_F', 0),
+                                   'FOLD+DROPLEAF': stats.get('h2_op_FD', 0), 'MTST bridge edge': stats.get('h2_op_B', 0)},
+            'sections_in_full_agreement': stats['h2_sections_agree'], 'sections_with_a_finding': stats['h2_problem_sections'],
+            'sections_not_replayed': stats['h2_skipped'],
+        } if h2 else 'hook H2 missing: op-log correspondence skipped'),
     })
+    if h2:
+        res.cov['traces_validated_against_impl'] = stats['transactions'] + stats['h2_sections']
+        res.cov['evaluations'] += stats['h2_commands']
     if not unknown and not info['ok']:
         res.violation({'what': 'a proof obligation of C12 no longer checks; the verified-checker search over %d scenes found no failing input' % len(scenes),
                        'broken_files': info.get('broken'), 'broken_lemmas': info.get('broken_lemmas'),
@@ -520,7 +644,7 @@ def replay(path):
 
 
 def warm():
-    C.build_harness('c12_hyper', ['libavoid'], 'exc')
+    harness_exe('exc')
     C.ocaml_build('c12', 'C12.v', 'c12_driver.ml', 'c12_model.ml')
 
 
@@ -528,20 +652,35 @@ META = {
     'property_id': PID,
     'level_claimed': {
         'category': 'proof',
-        'text': 'Coq theorems over finite multigraphs on nat (Graph/UnionFind.v, Graph/Trees.v) and the abstract hyperedge operations '
-                '(Avoid/HyperTreeModel.v): tree_checker_sound_complete (is_tree_with_leaves g T = true iff g connected, acyclic (every edge a '
-                'bridge) and its degree-1 nodes are exactly T), contract_preserves / merge_preserves / split_preserves, kruskal_spanning '
-                '(quick-find construction: acyclic subgraph with the candidates\' connectivity, so spanning all terminals the candidates connect), '
-                'C12_ops (any sequence of ContractEdge / SplitJunction / MergeJunctions / checker-guarded ReplaceByMTST keeps "tree with leaf '
-                'set T"), and kruskal_leaves_refuted (Kruskal alone does not make the terminals the leaves). The implementation is tied only '
-                'by V: the extracted checker runs on the real connector/junction graph after every transaction, with route-end and '
-                'new/deleted-list oracles; that is validation and search, not a proof about hyperedgeimprover.cpp.',
+        'text': 'Coq theorems at two levels. Connector level (Graph/UnionFind.v, Graph/Trees.v, Avoid/HyperTree.v): tree_checker_sound_complete '
+                '(is_tree_with_leaves g T = true iff g connected, acyclic (every edge a bridge) and its degree-1 nodes are exactly T), '
+                'contract/merge/split_preserves, kruskal_spanning, C12_ops, kruskal_leaves_refuted. Segment level (Avoid/HyperSegModel.v, HyperSeg.v): '
+                'the operations libavoid performs on its HyperedgeTree - contract_any (removeZeroLengthEdges in all its cases: bend-bend, junction-bend, '
+                'junction-junction, connector end with the bend next to it), subdivide (splitFromNodeAtPoint), fold / fold_drop '
+                '(moveJunctionAlongCommonEdge: merging of common-edge neighbours, deletion of the emptied junction node), bridge (MTST '
+                'commitToBridgingEdge), smooth (the connector-level reading used by addConns / updateConnEnds / writeEdgesToConns): each keeps "tree '
+                'whose degree-1 nodes are the terminal leaves" under an explicit degree guard (C12_seg_*_preserves, C12_seg_ops for any sequence, '
+                'C12_smooth_preserves, C12_mtst_ops_forest), keeps a tree even without the guard (C12_seg_op_tree), and without the guard loses a '
+                'leaf (C12_contract_leaf_into_branch_drops, C12_fold_leaf_drops, C12_contract_terminal_into_junction_refuted with a witness from a real '
+                'op log: the mechanism of finding F-j). Tie C (hook H2, add-only guarded op log): every run replays every logged operation of every '
+                'improvement and rerouting section on the extracted model and requires (i) the operation is defined and its guard holds, (ii) the '
+                'touched node has the logged neighbours after every operation and the model\'s final tree equals the dumped AFTER tree, (iii) the '
+                'verified checker accepts the BEFORE and AFTER trees with the (renamed) terminal leaves, the terminals at the leaves are unchanged, '
+                'and smooth(AFTER) is the connector/junction graph the router holds after write-back; MTST: every laid edge joins two components, '
+                'the terminal-set count and roots agree with the tree built so far. Tie V: the extracted checker on the real connector/junction graph '
+                'after every transaction, route-end and new/deleted-list oracles.',
         'design_ref': 'DESIGN.md 5.12'},
-    'level_note': 'partial: the abstract operations are not tied to the C++ by an op log (hook H2 not installed; an unlogged or different edit '
-                  'shows only through the V-run of the checker on the final graph). Trusted: Coq kernel, extraction, OCaml/C++ drivers, the graph '
-                  'reading of Router::connRefs / endpointConnEnds(). Oracle calibration: live = not queued for removal; junction ends at position() or '
-                  'recommendedPosition(); shape ends inside or on the shape; route orientation not required. Main stream: generic-position terminals, '
-                  'registration none / by junction. Classified streams (known findings re-found every run): terminal_on_tree_path (F-j), '
-                  'terminal_list_unattached (registration by terminal list).',
-    'technique': 'Coq proof over an abstract graph model + verified tree checker extracted and run on the real hyperedge graph',
+    'level_note': 'proof of the operation set the code performs, tied by an op-log correspondence (hook H2, tools/hooks/H2.patch; when the tree under test '
+                  'lacks the hook the run degrades to the V part and the evidence says "hook H2 missing: op-log correspondence skipped"). Not carried '
+                  'through the model: connector labels of tree edges (checked on the dumped trees: the edges of one connector form a path between '
+                  'junction nodes / connector ends) and geometry (zero-length / common-edge preconditions are compared on the logged points); the '
+                  'segment shifting between structural edits moves points only and is not modelled; JunctionRef::removeJunctionAndMergeConnectors '
+                  '(client API, not called by the scenes) is not logged. Trusted: Coq kernel, extraction, OCaml/C++ drivers, the hook\'s print '
+                  'statements, checks/c12lib.py (log parsing, node naming). Oracle calibration of the V part: live = not queued for removal; junction '
+                  'ends at position() or recommendedPosition(); shape ends inside or on the shape; route orientation not required. Classified streams '
+                  '(known findings re-found every run): terminal_on_tree_path (F-j; with the hook the log shows its two mechanisms - removeZeroLengthEdges '
+                  'contracts a junction with a connector end, and with registration by terminal list the MTST passes through a terminal vertex whose '
+                  'node addConns then attaches as a terminal, not as a junction), terminal_list_unattached.',
+    'technique': 'Coq proof over an abstract graph model of the real operation set + hook-based op-log correspondence (replay on the extracted model) + '
+                 'verified tree checker extracted and run on the real hyperedge graph',
 }
